@@ -134,6 +134,21 @@ def check_mixed_classes(rep):
               ('(PRO(2) @ Ty(2, 3))[1:]', lambda: monoidal.Id(P2 @ monoidal.Ty(2, 3))[0:0] @ monoidal.Id((P2 @ monoidal.Ty(2, 3))[1:])),
               ('zx.Z(1, 2) @ tensor.Box', lambda: _zx.Z(1, 2, .25) @ tv), ('rigid.PRO box @ rigid.Ty(2) box',
                lambda: rigid.Box('fp', rigid.PRO(1), rigid.PRO(2)) @ rigid.Box('g2', rigid.Ty(2), rigid.Ty(2, 3)))]
+    # classical and quantum wires of the same dimension other than 2 (a trit is not a qutrit), and quantum wires of
+    # different dimensions: never plugged into one another
+    from discopy.quantum import circuit as _qc
+    trit, qutrit, ququart = _qc.Ty(_qc.Digit(3)), _qc.Ty(_qc.Qudit(3)), _qc.Ty(_qc.Qudit(4))
+    st_c, st_q = _qc.Box('s', _qc.Ty(), trit @ trit), _qc.Box('r', _qc.Ty(), qutrit @ trit)
+    gate_q, gate_c = _qc.Box('U', qutrit, qutrit), _qc.Box('N', trit, trit)
+    cases += [('state(trit) >> gate(qutrit) @ Id(trit)', lambda: st_c >> gate_q @ _qc.Id(trit)),
+              ('state(qutrit @ trit) >> Id(qutrit) @ gate(qutrit)', lambda: st_q >> _qc.Id(qutrit) @ gate_q),
+              ('state(qutrit @ trit) >> gate(trit) @ Id(trit)', lambda: st_q >> gate_c @ _qc.Id(trit)),
+              ('Circuit(trit, qutrit, [gate(qutrit)], [0])', lambda: _qc.Circuit(trit, qutrit, [gate_q], [0])),
+              ('gate(qutrit) >> Box(ququart -> ququart)', lambda: gate_q >> _qc.Box('V', ququart, ququart)),
+              ('Swap(trit, qutrit) >> gate(qutrit) @ Id(trit)', lambda: _qc.Swap(trit, qutrit) >> gate_q @ _qc.Id(trit)),
+              # well-typed controls
+              ('state(qutrit @ trit) >> gate(qutrit) @ gate(trit)', lambda: st_q >> gate_q @ gate_c),
+              ('Swap(trit, qutrit) >> gate(qutrit) @ gate(trit)', lambda: _qc.Swap(trit, qutrit) >> gate_q @ gate_c)]
     for what, thunk in cases:
         rep.case(('mixed', what))
         got = common.outcome(thunk)
